@@ -135,8 +135,8 @@ template <typename T> static void op_gtx(const Case& c, Outcome& o) {
 }
 
 // ------------------------------------------------------------------ explicit-state part: operation sequences
-enum { A_ADDS, A_SUBS, A_MULS, A_ADDM, A_SUBM, A_INC, A_DEC, A_NEG, A_MULM, A_SELFMUL, A_SELFMULA, A_TRANSP, NALPHA };
-static const char* ALPHA_NAMES[NALPHA] = {"m+=2", "m-=1", "m*=3", "m+=M0", "m-=M0", "++m", "--m", "m=-m", "m*=M0", "m=m*m", "m*=m", "m=transpose(m)"};
+enum { A_ADDS, A_SUBS, A_MULS, A_ADDM, A_SUBM, A_INC, A_DEC, A_NEG, A_MULM, A_SELFMUL, A_SELFMULA, A_TRANSP, A_VIA4, A_VIA2, NALPHA };
+static const char* ALPHA_NAMES[NALPHA] = {"m+=2", "m-=1", "m*=3", "m+=M0", "m-=M0", "++m", "--m", "m=-m", "m*=M0", "m=m*m", "m*=m", "m=transpose(m)", "m=matCxR(mat4x4(m))", "m=matCxR(mat2x2(m))"};
 template <int C, int R, typename T> static void op_sequence(const Case& c, Outcome& o) {
   // c.w[0] = start id, c.w[1] = length, c.w[2..] = op ids
   static const i64 START[3][16] = {{2, 3, 5, 7, 11, 13, 17, 19, 23, 29, 31, 37, 41, 43, 47, 53}, {1, 0, 0, 0, 0, 1, 0, 0, 0, 0, 1, 0, 0, 0, 0, 1}, {1, -2, 3, -1, 2, 1, -3, 2, -1, 3, 1, -2, 2, -1, 3, 1}};
@@ -152,9 +152,11 @@ template <int C, int R, typename T> static void op_sequence(const Case& c, Outco
       case A_ADDM: n[cc][r] = a[cc][r] + b0[cc][r]; break; case A_SUBM: n[cc][r] = a[cc][r] - b0[cc][r]; break; case A_INC: n[cc][r] = a[cc][r] + 1; break; case A_DEC: n[cc][r] = a[cc][r] - 1; break; case A_NEG: n[cc][r] = -a[cc][r]; break;
       case A_MULM: { i64 s = 0; for (int k = 0; k < C; ++k) s += a[k][r] * b0[cc][k]; n[cc][r] = s; } break;
       case A_SELFMUL: case A_SELFMULA: { i64 s = 0; for (int k = 0; k < C; ++k) s += a[k][r] * a[cc][k]; n[cc][r] = s; } break;
-      case A_TRANSP: n[cc][r] = a[r][cc]; break; }
+      case A_TRANSP: n[cc][r] = a[r][cc]; break;
+      case A_VIA4: n[cc][r] = a[cc][r]; break;                                                      // up to 4x4 and back: every entry survives
+      case A_VIA2: n[cc][r] = (cc < 2 && r < 2) ? a[cc][r] : (cc == r ? 1 : 0); break; }              // down to 2x2 and back: the upper-left block survives, the rest is the identity
     for (int cc = 0; cc < C; ++cc) for (int r = 0; r < R; ++r) if (n[cc][r] > LIM || n[cc][r] < -LIM) { o.nontrivial = false; return; }   // keep exact results representable
-    switch (opi) { case A_ADDS: m += T(2); break; case A_SUBS: m -= T(1); break; case A_MULS: m *= T(3); break; case A_ADDM: m += m0; break; case A_SUBM: m -= m0; break; case A_INC: ++m; break; case A_DEC: --m; break; case A_NEG: m = -m; break;
+    switch (opi) { case A_VIA4: m = glm::mat<C, R, T>(glm::mat<4, 4, T>(m)); break; case A_VIA2: m = glm::mat<C, R, T>(glm::mat<2, 2, T>(m)); break; case A_ADDS: m += T(2); break; case A_SUBS: m -= T(1); break; case A_MULS: m *= T(3); break; case A_ADDM: m += m0; break; case A_SUBM: m -= m0; break; case A_INC: ++m; break; case A_DEC: --m; break; case A_NEG: m = -m; break;
       default: if constexpr (C == R) { if (opi == A_MULM) m *= m0; else if (opi == A_SELFMUL) m = m * m; else if (opi == A_SELFMULA) m *= m; else if (opi == A_TRANSP) m = glm::transpose(m); } break; }
     for (int cc = 0; cc < C; ++cc) for (int r = 0; r < R; ++r) { a[cc][r] = n[cc][r]; if (!eqv<T>(m[cc][r], a[cc][r])) { o.res((uint64_t)(i64)m[cc][r], (uint64_t)((step << 8) | (cc * 4 + r))); o.exp((uint64_t)a[cc][r]); char msg[160]; std::snprintf(msg, sizeof msg, "sequence step %d (%s): element [%d][%d] differs from the array reference model", step, ALPHA_NAMES[opi], cc, r); o.bad(1 + opi, msg); return; } }
   }
@@ -176,7 +178,7 @@ static Domain lattice(int n, bool dev3, int extra_scalar = 0) {     // rows of n
 static Domain seq_domain(int depth) {   // all op sequences up to `depth` from each of 3 start matrices: rows [start, len, op0..op(depth-1)]
   std::vector<uint64_t> flat; for (uint64_t s = 0; s < 3; ++s) { std::vector<std::vector<int>> level = {{}}; for (int d = 0; d <= depth; ++d) { for (auto& sq : level) { flat.push_back(s); flat.push_back(sq.size()); for (int i = 0; i < depth; ++i) flat.push_back(i < (int)sq.size() ? sq[i] : 0); }
       std::vector<std::vector<int>> nx; if (d < depth) for (auto& sq : level) for (int a = 0; a < NALPHA; ++a) { auto t = sq; t.push_back(a); nx.push_back(t); } level.swap(nx); } }
-  return rows("ALL_SEQUENCES(depth<=" + std::to_string(depth) + ", 12-op alphabet, 3 start matrices)", 2 + depth, flat, true);
+  return rows("ALL_SEQUENCES(depth<=" + std::to_string(depth) + ", 14-op alphabet, 3 start matrices)", 2 + depth, flat, true);
 }
 
 template <int C, int R, typename T> static void reg_shape(Engine& E, const std::string& t, bool quick) {
@@ -191,7 +193,7 @@ template <int C, int R, typename T> static void reg_shape(Engine& E, const std::
   { Op& op = E.add("mat" + sh + ": M*v, v*M, outerProduct, transpose, row/column", op_matvec<C, R, T>); setd(op, lattice(C * R + C + R, false), lattice(C * R + C + R, true)); }
   { Op& op = E.add("mat" + sh + ": element-wise operators, compound assignment, ++/--, ==", op_elementwise<C, R, T>); setd(op, lattice(2 * C * R, false, 1), lattice(2 * C * R, false, 1)); }
   { Op& op = E.add("mat*(mat" + sh + "): 9 shape conversions, diagonal ctor", op_convert<C, R, T>); setd(op, lattice(C * R, false), lattice(C * R, true)); }
-  if (std::is_same<T, int>::value || std::is_same<T, double>::value) { Op& op = E.add("sequences mat" + sh, op_sequence<C, R, T>); if (quick) op.quick = {seq_domain(2)}; op.thorough = {seq_domain(C * R <= 9 ? 4 : 3)}; op.classes = {"initial", "after-transition"}; }
+  if (std::is_same<T, int>::value || std::is_same<T, double>::value) { Op& op = E.add("sequences mat" + sh, op_sequence<C, R, T>); if (quick) op.quick = {seq_domain(3)}; op.thorough = {seq_domain(C * R <= 9 ? 5 : 4)}; op.classes = {"initial", "after-transition"}; }
 }
 template <typename T> static void reg_type(Engine& E, const std::string& t, bool quick) {
   reg_shape<2, 2, T>(E, t, quick); reg_shape<2, 3, T>(E, t, quick); reg_shape<2, 4, T>(E, t, quick); reg_shape<3, 2, T>(E, t, quick); reg_shape<3, 3, T>(E, t, quick);
